@@ -161,35 +161,24 @@ func runC09(c *Ctx) {
 		// R3 accounting
 		var expectedObj types.Object
 		var rangeObjs []types.Object
-		ast.Inspect(f.Body, func(n ast.Node) bool {
-			rs, ok := n.(*ast.RangeStmt)
-			if !ok {
-				return true
-			}
-			p := core.PathOf(info, rs.X)
-			if !p.Valid() || len(p.Fields) != 0 {
-				return true
-			}
+		for _, lp := range listLoops(info, f.Body) {
 			isLayerList := false
-			if sl, ok := info.Types[rs.X].Type.Underlying().(*types.Slice); ok && core.ObjNameOfType(sl.Elem()) == regPkg+".Layer" {
+			if sl, ok := lp.ListType.Underlying().(*types.Slice); ok && core.ObjNameOfType(sl.Elem()) == regPkg+".Layer" {
 				isLayerList = true
 			}
 			if !isLayerList {
-				return true
+				continue
 			}
-			rangeObjs = append(rangeObjs, p.Root)
-			ast.Inspect(rs.Body, func(m ast.Node) bool {
+			rangeObjs = append(rangeObjs, lp.List)
+			ast.Inspect(lp.Body, func(m ast.Node) bool {
 				if as, ok := m.(*ast.AssignStmt); ok && as.Tok == token.ADD_ASSIGN && len(as.Lhs) == 1 {
-					if se, ok := ast.Unparen(as.Rhs[0]).(*ast.SelectorExpr); ok && se.Sel.Name == "Size" {
-						if vid, ok := rs.Value.(*ast.Ident); ok && core.UsesObj(info, se.X, info.Defs[vid]) {
-							expectedObj = core.PathOf(info, as.Lhs[0]).Root
-						}
+					if se, ok := ast.Unparen(as.Rhs[0]).(*ast.SelectorExpr); ok && se.Sel.Name == "Size" && lp.IsElem(se.X) {
+						expectedObj = core.PathOf(info, as.Lhs[0]).Root
 					}
 				}
 				return true
 			})
-			return true
-		})
+		}
 		same := len(rangeObjs) >= 2
 		for _, o := range rangeObjs {
 			if o != rangeObjs[0] {
@@ -201,12 +190,14 @@ func runC09(c *Ctx) {
 		cfgAppended := false
 		if len(rangeObjs) > 0 {
 			for _, as := range g.AssignsTo(rangeObjs[0]) {
-				ast.Inspect(as.Node, func(n ast.Node) bool {
-					if se, ok := n.(*ast.SelectorExpr); ok && se.Sel.Name == "Config" {
-						cfgAppended = true
-					}
-					return true
-				})
+				for _, x := range expand(g, as.Node, 2) { // through a local (`cfg := m.Config`)
+					ast.Inspect(x, func(n ast.Node) bool {
+						if se, ok := n.(*ast.SelectorExpr); ok && se.Sel.Name == "Config" {
+							cfgAppended = true
+						}
+						return true
+					})
+				}
 			}
 		}
 		c.Check("C09-R3", key+" layer list includes config", c.Pos(f.Decl), cfgAppended, "the downloaded list must be Layers plus Config")
@@ -705,4 +696,86 @@ func accumulatesField(g *core.Graph, e ast.Expr, field string) bool {
 		}
 	}
 	return n > 0
+}
+
+// listLoop is a loop over all elements of a slice variable, in any of the three spellings
+// `for _, v := range L`, `for i := range L` and `for i := 0; i < len(L); i++`.
+type listLoop struct {
+	List     types.Object
+	ListType types.Type
+	Body     *ast.BlockStmt
+	Stmt     ast.Stmt
+	IsElem   func(e ast.Expr) bool // e denotes the current element (v, L[i], or a local initialised with L[i])
+}
+
+func listLoops(info *types.Info, root ast.Node) []listLoop {
+	var out []listLoop
+	mk := func(list types.Object, lt types.Type, body *ast.BlockStmt, st ast.Stmt, val, idx types.Object) {
+		// locals of the body initialised with L[idx]
+		alias := map[types.Object]bool{}
+		if idx != nil {
+			for _, s := range body.List {
+				if as, ok := s.(*ast.AssignStmt); ok && as.Tok == token.DEFINE && len(as.Lhs) == 1 && len(as.Rhs) == 1 {
+					if ix, isIx := ast.Unparen(as.Rhs[0]).(*ast.IndexExpr); isIx && isIdentOf(info, ix.X, list) && isIdentOf(info, ix.Index, idx) {
+						alias[info.ObjectOf(as.Lhs[0].(*ast.Ident))] = true
+					}
+				}
+			}
+		}
+		out = append(out, listLoop{List: list, ListType: lt, Body: body, Stmt: st, IsElem: func(e ast.Expr) bool {
+			e = ast.Unparen(e)
+			if id, ok := e.(*ast.Ident); ok {
+				o := info.Uses[id]
+				return o != nil && (o == val || alias[o])
+			}
+			if ix, ok := e.(*ast.IndexExpr); ok && idx != nil {
+				return isIdentOf(info, ix.X, list) && isIdentOf(info, ix.Index, idx)
+			}
+			return false
+		}})
+	}
+	ast.Inspect(root, func(n ast.Node) bool {
+		switch x := n.(type) {
+		case *ast.RangeStmt:
+			p := core.PathOf(info, x.X)
+			if !p.Valid() || len(p.Fields) != 0 {
+				return true
+			}
+			var val, idx types.Object
+			if id, ok := x.Value.(*ast.Ident); ok {
+				val = info.Defs[id]
+			}
+			if id, ok := x.Key.(*ast.Ident); ok {
+				idx = info.Defs[id]
+			}
+			mk(p.Root, info.TypeOf(x.X), x.Body, x, val, idx)
+		case *ast.ForStmt:
+			// for i := 0; i < len(L); i++
+			init, ok1 := x.Init.(*ast.AssignStmt)
+			cond, ok2 := x.Cond.(*ast.BinaryExpr)
+			post, ok3 := x.Post.(*ast.IncDecStmt)
+			if !ok1 || !ok2 || !ok3 || len(init.Lhs) != 1 || post.Tok != token.INC {
+				return true
+			}
+			iv := info.ObjectOf(init.Lhs[0].(*ast.Ident))
+			if v, isC := core.ConstInt(info, init.Rhs[0]); !isC || v != 0 || !isIdentOf(info, post.X, iv) {
+				return true
+			}
+			_, y, op, okO := core.Orient(cond, func(e ast.Expr) bool { return isIdentOf(info, e, iv) })
+			if !okO || op != token.LSS {
+				return true
+			}
+			call, isC := ast.Unparen(y).(*ast.CallExpr)
+			if !isC || core.CalleeName(info, call) != "builtin.len" {
+				return true
+			}
+			p := core.PathOf(info, call.Args[0])
+			if !p.Valid() || len(p.Fields) != 0 {
+				return true
+			}
+			mk(p.Root, info.TypeOf(call.Args[0]), x.Body, x, nil, iv)
+		}
+		return true
+	})
+	return out
 }
